@@ -515,8 +515,8 @@ pub fn run(ctx: &Ctx) -> Report {
     if !hooks_enabled() {
         rep.assume("harness built WITHOUT --cfg servo_html5ever_verif: step budgets inactive, hang detection by watchdog only");
     }
-    report_known(ctx, &mut rep, &|v| replay(ctx, v));
-    run_regressions(ctx, &mut rep, &|v| replay(ctx, v));
+    report_known(ctx, &mut rep, &|v| replay(&ctx.strict_clone(), v));
+    run_regressions(ctx, &mut rep, &|v| replay(&ctx.strict_clone(), v));
     let out = run_random(ctx.seed, ctx.tier.pick(300_000, 15_000_000), 1500, decode, check);
     rep.absorb(out);
     // pathological cases in child processes
